@@ -10,7 +10,8 @@
    The CRC is stated against Scte.crc_model, the transliteration of gots.ComputeCRC; Module Crc (C13) proves that
    algorithm equal to CRC-32/MPEG-2, whence "the CRC of the whole section is zero". *)
 From Gots Require Import Base.Prelude Model.Pts Model.Scte Model.ScteEnc Spec.Scte35Spec
-  Proofs.ScteExpected Proofs.ScteLogical Proofs.ScteDecode Proofs.ScteEncode Proofs.ScteRoundtrip Proofs.ScteSetters.
+  Proofs.ScteExpected Proofs.ScteLogical Proofs.ScteDecode Proofs.ScteEncode Proofs.ScteRoundtrip Proofs.ScteSetters
+  Proofs.ScteCanonical.
 Import Scte ScteEnc Scte35Spec.
 Local Open Scope N_scope.
 
@@ -42,6 +43,15 @@ Theorem C09_decode_encode : forall fs st, decodable fs st ->
   new_scte35 (0 :: fst (update_data st)) = Ok (expected (logical fs st)).
 Proof. exact decode_encode. Qed.
 Print Assumptions C09_decode_encode.
+
+(* re-encoding a decoded canonical section reproduces it byte for byte.  `canonical` (Proofs/ScteCanonical.v): supported,
+   sap_type 3, exact splice_command_length, no stuffing, foreign descriptors before segmentation descriptors,
+   section_length < 1024, CRC_32 = ComputeCRC of the preceding bytes; and, because of findings C09-a / C09-b,
+   no untimed component in a timed component list and pts_adjustment 0 for splice_null *)
+Theorem C09_encode_decode_canonical : forall s, canonical s ->
+  new_scte35 (ser_splice_info s) = Ok (expected s) /\ fst (update_data (expected s)) = ser_section s.
+Proof. exact encode_decode_canonical. Qed.
+Print Assumptions C09_encode_decode_canonical.
 
 (* encoding is idempotent (for every state), and Data() afterwards is what UpdateData returned *)
 Theorem C09_encode_idempotent : forall st, fst (update_data (snd (update_data st))) = fst (update_data st).
@@ -194,6 +204,27 @@ Proof.
 Qed.
 Print Assumptions C09_null_adjustment_refuted.
 
+(* ---- non-vacuity of `canonical`: component-mode timed splice_insert with break, a foreign descriptor, a descriptor
+   with components, 40-bit duration, MID list and sub-segments, a cancelled descriptor; pointer_field 3 ---- *)
+Definition ex_canon0 : splice_info :=
+  mksi [255; 255; 255] 252 false false 3 0 false 0 8589934591 255 2748 false
+       (Insert 305419896 (Some (mkib true (CompTimed [(1, Some 8589934591); (2, Some 0)]) (Some (true, 8589934591)) 65535 1 2)))
+       [Foreign 1 [67; 85; 69; 73; 0];
+        Seg 4294967295 (Some (mksb (Some [(7, 8589934591)]) (Some 1099511627775) (Some (true, false, true, 2))
+                                   (Multi [(9, [66; 76]); (14, [])]) 52 3 4 (Some (1, 2))));
+        Seg 5 None] [] 0.
+Definition ex_crc : N := Eval vm_compute in crc_reg (ser_section_nocrc ex_canon0).
+Definition ex_canon : splice_info := with_crc ex_canon0 ex_crc.
+Example C09_example_canonical : canonical ex_canon.
+Proof.
+  unfold canonical. split.
+  { unfold supported, wf_decode, ex_canon, ex_canon0. cbn. repeat (split || constructor); cbn; try lia; try discriminate; auto. }
+  repeat split; try reflexivity; try (cbn; lia).
+  - exists [Foreign 1 [67; 85; 69; 73; 0]]. eexists. split; [reflexivity|]. split; repeat constructor.
+  - cbn. repeat constructor; discriminate.
+  - discriminate.
+Qed.
+
 (* ---- non-vacuity: a history from CreateSCTE35 reaching a normal, decodable state with a timed splice_insert with
    break_duration and two descriptors (components with bit 32, 40-bit duration, MID list, sub-segments) ---- *)
 Definition ex_script : list sig_op :=
@@ -213,7 +244,7 @@ Proof.
   unfold decodable, normal, ex_state.
   cbn [s_tid s_protocol s_enc_alg s_cw s_tier s_pts s_cmd s_cmd_type s_descs s_other s_stuffing s_encrypted cmd_pts i_pts].
   repeat split; try reflexivity; try (constructor; fail).
-  constructor; [|constructor; [|constructor]]; unfold normal_desc;
+  constructor; [|constructor; [|constructor]]; unfold normal_desc, normal_desc_gen;
     cbn [d_type d_event_id d_has_duration d_duration d_upid_type d_upid d_mid d_seg_num d_segs_expected d_sub_seg_num
          d_sub_segs_expected d_owner d_cancel d_dnr d_has_sub d_program_seg d_web d_noblackout d_archive d_device d_components];
     (split; [reflexivity|]); intros Hc; try discriminate Hc;
